@@ -1,6 +1,367 @@
-/- layer B of the dynamic model (full run): under construction -/
+/-
+  Dynamic model, layer B ("full run"): layer A plus everything `co_run` / `co_shutdown` decide —
+  when a run leaves its main loop (critical failure, all regular jobs done, expiry, cancellation from the
+  enclosing scheduler), what it cancels, how it shuts its jobs down, what it returns or raises, what
+  `failed_time_out()` / `failed_critical()` then say.
+
+  The state embeds a layer-A state and every event is mapped to layer-A events (`projA`), so every
+  accepted history of this layer projects onto an accepted history of layer A (`Proofs/Refine.lean`).
+
+  Transcribes (after the repairs recorded in known_findings.json):
+    purescheduler.py  co_run (cancellation wrapper), _co_run 958-1085, _tidy_tasks 698-725,
+                      co_shutdown 864-912, _record_beginning / _remaining_timeout
+    scheduler.py      Scheduler.co_run 114-136 (verdict conversion)
+  Core Lean only.
+-/
 import AJ.Model.Run
 namespace AJ.Full
 open AJ.Run
-def handleB (_c : Cfg) (_evs : String) : String := "ok 0"
+
+/-- why a run left its main loop -/
+inductive Exit
+  | success | critical | timeout | cancelled
+  deriving DecidableEq, Repr, Inhabited
+
+/-- where `co_run` of a scheduler is suspended -/
+inductive PcB
+  | notBegun
+  | loop                    -- main `asyncio.wait`
+  | tidy (x : Exit)         -- `_tidy_tasks`: waiting for the tasks it cancelled
+  | shut (x : Exit)         -- `co_shutdown`: bounded wait for the shutdown handlers
+  | shutTidy (x : Exit)     -- `co_shutdown`: waiting for the handlers it cancelled
+  | over
+  deriving DecidableEq, Repr, Inhabited
+
+/-- who called `co_shutdown` of a scheduler: its own `co_run` (inline), or the shutdown broadcast of
+    the enclosing scheduler (the task running it is the scheduler's "handler": a relay) -/
+inductive Who
+  | inline | relay
+  deriving DecidableEq, Repr, Inhabited
+
+/-- state of a scheduler's own shutdown broadcast -/
+inductive Bc
+  | bnone
+  | bwait (w : Who)         -- `asyncio.wait(tasks, timeout=shutdown_timeout)`
+  | btidy (w : Who)         -- `_tidy_tasks(pending)` after expiry or cancellation
+  | bover
+  deriving DecidableEq, Repr, Inhabited
+
+/-- state of the task running `j.co_shutdown()` -/
+inductive Hph
+  | hnone | hactive | hdone | hcancelled
+  deriving DecidableEq, Repr, Inhabited
+
+structure StB where
+  a         : StA
+  pcB       : Nat → PcB
+  /-- `nb_jobs_done` -/
+  nbDone    : Nat → Nat
+  /-- `_expiration` while the run is in its main loop -/
+  deadline  : Nat → Option Nat
+  /-- a `CancelledError` was delivered into `co_run` (at most once per run) -/
+  carrived  : Nat → Bool
+  /-- `_did_shutdown` -/
+  didSd     : Nat → Bool
+  bc        : Nat → Bc
+  /-- `_expiration` during the bounded wait of `co_shutdown` -/
+  hdeadline : Nat → Option Nat
+  hph       : Nat → Hph
+  /-- `cancel()` was called on the handler task and not acknowledged -/
+  hcreq     : Nat → Bool
+  /-- a `CancelledError` was delivered into the relayed `co_shutdown` -/
+  hcarrived : Nat → Bool
+  /-- number of times `co_shutdown()` was called on the job (ghost) -/
+  hcalls    : Nat → Nat
+  /-- `_failed_timeout is not False` -/
+  failT     : Nat → Bool
+  /-- `_failed_critical` -/
+  failC     : Nat → Bool
+  /-- value returned by the last `co_shutdown()` of the scheduler: `some true/false`, or `none` -/
+  sdValue   : Nat → Option Bool
+
+def StB.init : StB :=
+  { a := StA.init, pcB := fun _ => .notBegun, nbDone := fun _ => 0, deadline := fun _ => none,
+    carrived := fun _ => false, didSd := fun _ => false, bc := fun _ => .bnone, hdeadline := fun _ => none,
+    hph := fun _ => .hnone, hcreq := fun _ => false, hcarrived := fun _ => false, hcalls := fun _ => 0,
+    failT := fun _ => false, failC := fun _ => false, sdValue := fun _ => none }
+
+inductive EvB
+  | runBegin
+  | grant (j : Nat)
+  | bodyEnd (j : Nat) (ok : Bool)
+  | cancelAck (j : Nat)
+  /-- the `CancelledError` requested by the enclosing scheduler is delivered into `co_run` of `s` -/
+  | cancelArrive (s : Nat)
+  /-- the main wait of `s` returns finished jobs -/
+  | waitReturn (s : Nat)
+  /-- `co_run` of `s` reacts to them: critical failure? all regular jobs done? else start successors -/
+  | react (s : Nat)
+  /-- the main wait of `s` returns nothing: its timeout elapsed -/
+  | timeoutFire (s : Nat)
+  /-- `_tidy_tasks` of `s` returns: every task it cancelled has finished; `pick` names the critical job
+      whose exception a critical scheduler re-raises (Python takes the first one in set order) -/
+  | tidyReturn (s : Nat) (pick : Nat)
+  /-- first step of the task running `co_shutdown()` of nested scheduler `j` (relay) -/
+  | hStep (j : Nat)
+  /-- the shutdown handler of atomic job `j` ends -/
+  | hEnd (j : Nat)
+  /-- the cancelled shutdown handler of atomic job `j` finishes -/
+  | hCancelAck (j : Nat)
+  /-- a `CancelledError` is delivered into the relayed `co_shutdown()` of `s` -/
+  | hCancelArrive (s : Nat)
+  /-- the bounded wait of `co_shutdown` of `s` returns: all handlers done -/
+  | sdWaitReturn (s : Nat) (pick : Nat)
+  /-- … returns because `shutdown_timeout` elapsed -/
+  | sdTimeoutFire (s : Nat)
+  /-- `_tidy_tasks` of `co_shutdown` returns: every cancelled handler has finished -/
+  | sdTidyReturn (s : Nat) (pick : Nat)
+  | tick (d : Nat)
+  deriving Repr, Inhabited
+
+def liveChildren (c : Cfg) (st : StA) (s : Nat) : List Nat :=
+  (c.children s).filter fun k => (st.ph k).live
+
+def activeHandlers (c : Cfg) (st : StB) (s : Nat) : List Nat :=
+  (c.children s).filter fun k => st.hph k == .hactive
+
+def nbFinite (c : Cfg) (s : Nat) : Nat := ((c.children s).filter fun k => !c.forever k).length
+
+/-- a critical job of `D` raised (1020-1040) -/
+def critIn (c : Cfg) (st : StA) (D : List Nat) : Bool :=
+  D.any fun d => c.critical d && (match st.ph d with | .done (.exc _) => true | _ => false)
+
+/-- a deadline that has been reached -/
+def expired (dl : Option Nat) (now : Nat) : Bool :=
+  match dl with | some d => d ≤ now | none => false
+
+/-- the clock may advance by `d` without passing the deadline -/
+def within (dl : Option Nat) (now d : Nat) : Bool :=
+  match dl with | some x => now + d ≤ x | none => true
+
+def Bc.isWait : Bc → Bool | .bwait _ => true | _ => false
+def Bc.isTidy : Bc → Bool | .btidy _ => true | _ => false
+def Bc.who : Bc → Who | .bwait w => w | .btidy w => w | _ => .inline
+def PcB.isTidy : PcB → Bool | .tidy _ => true | _ => false
+
+/-- the relay of `s` is inside its broadcast -/
+def relayActive (st : StB) (s : Nat) : Bool := st.bc s == .bwait .relay || st.bc s == .btidy .relay
+
+/-- is `s` a nestable `Scheduler` (converts `False` into an exception when critical)? -/
+def nestable (c : Cfg) (s : Nat) : Bool := s != 0 || !c.topPure
+
+/-- `co_shutdown` body once the guard `_did_shutdown` is passed: one handler task per job, deadline armed -/
+def broadcast (c : Cfg) (st : StB) (s : Nat) (w : Who) : StB :=
+  { st with
+    didSd := setAt st.didSd s true
+    hph := fun k => if k ∈ c.children s then .hactive else st.hph k
+    hcreq := fun k => if k ∈ c.children s then false else st.hcreq k
+    hcalls := fun k => if k ∈ c.children s then st.hcalls k + 1 else st.hcalls k
+    hdeadline := setAt st.hdeadline s ((c.sdTimeout s).map (st.a.now + ·))
+    bc := setAt st.bc s (.bwait w) }
+
+/-- the value / exception `co_run` of `s` ends with, after exit `x` (purescheduler 1013-1059 + scheduler.py 114-136);
+    `none` = ends cancelled -/
+def verdict (c : Cfg) (st : StB) (s : Nat) (x : Exit) (pick : Nat) : Option (Option Res) :=
+  match x with
+  | .cancelled => some none
+  | .success => some (some (.retBool true))
+  | .timeout =>
+    if nestable c s && c.critical s then some (some (.exc (.tmo s))) else some (some (.retBool false))
+  | .critical =>
+    if nestable c s && c.critical s then
+      if pick ∈ c.children s ∧ c.critical pick = true then
+        match st.a.ph pick with
+        | .done (.exc e) => some (some (.exc e))
+        | _ => none
+      else none
+    else some (some (.retBool false))
+
+/-- `co_run` of `s` ends (its `co_shutdown` has returned) -/
+def finishRun (c : Cfg) (st : StB) (s : Nat) (x : Exit) (pick : Nat) : Option StB :=
+  match verdict c st s x pick with
+  | none => none
+  | some r =>
+    match stepA c st.a (.finish s r) with
+    | none => none
+    | some a' =>
+      some { st with a := a', pcB := setAt st.pcB s .over,
+                     failT := setAt st.failT s (x == .timeout), failC := setAt st.failC s (x == .critical) }
+
+/-- the run of `s` leaves its main loop for reason `x`: `_tidy_tasks(pending)` cancels what is left -/
+def exitLoop (_c : Cfg) (st : StB) (s : Nat) (x : Exit) (a' : StA) : StB :=
+  { st with a := a', pcB := setAt st.pcB s (.tidy x), deadline := setAt st.deadline s none }
+
+/-- layer-B bookkeeping when `co_run` of `s` begins -/
+def beginB (c : Cfg) (st : StB) (s : Nat) (a' : StA) : StB :=
+  if (c.children s).isEmpty then { st with a := a', pcB := setAt st.pcB s .over }
+  else { st with a := a', pcB := setAt st.pcB s .loop, nbDone := setAt st.nbDone s 0,
+                 deadline := setAt st.deadline s ((c.timeout s).map (st.a.now + ·)) }
+
+/-- nothing that must happen "now" is pending (assumption A2: the clock does not advance meanwhile) -/
+def quietB (c : Cfg) (st : StB) : Bool :=
+  (List.range c.n).all fun j =>
+    -- a queued job that could take a slot, or whose cancellation is pending
+    !(0 < j && st.a.ph j == .queued && (st.a.creq j || slotFree c st.a (c.parent j))) &&
+    -- a nested run whose cancellation has not been delivered
+    !(c.isSched j && st.a.ph j == .running && st.a.creq j && !st.carrived j) &&
+    -- a main wait that could return, a reaction that is pending
+    !(c.isSched j && st.pcB j == .loop && (!(doneSet c st.a j).isEmpty || (st.a.rx j).isSome)) &&
+    -- a tidy wait that could return
+    !(c.isSched j && (st.pcB j).isTidy && (liveChildren c st.a j).isEmpty) &&
+    -- a relay that has not had its first step, or whose cancellation has not been delivered
+    !(c.isSched j && st.hph j == .hactive && !relayActive st j) &&
+    !(c.isSched j && st.hph j == .hactive && st.hcreq j && !st.hcarrived j) &&
+    -- a shutdown wait that could return
+    !(c.isSched j && ((st.bc j).isWait || (st.bc j).isTidy) && (activeHandlers c st j).isEmpty)
+
+def stepB (c : Cfg) (st : StB) : EvB → Option StB
+  | .runBegin =>
+    match stepA c st.a .runBegin with
+    | none => none
+    | some a' => some (beginB c st 0 a')
+  | .grant j =>
+    match stepA c st.a (.grant j) with
+    | none => none
+    | some a' => if c.isSched j then some (beginB c st j a') else some { st with a := a' }
+  | .bodyEnd j ok =>
+    match stepA c st.a (.bodyEnd j ok) with
+    | none => none
+    | some a' => some { st with a := a' }
+  | .cancelAck j =>
+    match stepA c st.a (.cancelAck j) with
+    | none => none
+    | some a' => some { st with a := a' }
+  | .cancelArrive s =>
+    if 0 < s ∧ s < c.n ∧ c.isSched s = true ∧ st.a.ph s = .running ∧ st.a.creq s = true ∧ st.carrived s = false then
+      let st1 := { st with carrived := setAt st.carrived s true }
+      match st.pcB s with
+      | .loop =>
+        -- raised out of the main wait: co_run's handler cancels the unfinished tasks and waits for them
+        match stepA c st.a (.leave s (liveChildren c st.a s)) with
+        | none => none
+        | some a' => some (exitLoop c st1 s .cancelled a')
+      | .tidy _ => some { st1 with pcB := setAt st.pcB s (.tidy .cancelled) }
+      | .shut _ =>
+        -- raised out of co_shutdown's wait: the handlers are cancelled and awaited
+        some { st1 with pcB := setAt st.pcB s (.shutTidy .cancelled), bc := setAt st.bc s (.btidy .inline),
+                        hcreq := fun k => st.hcreq k || decide (k ∈ activeHandlers c st s) }
+      | .shutTidy _ => some { st1 with pcB := setAt st.pcB s (.shutTidy .cancelled) }
+      | _ => none
+    else none
+  | .waitReturn s =>
+    if st.pcB s = .loop then
+      match stepA c st.a (.waitReturn s) with
+      | none => none
+      | some a' => some { st with a := a' }
+    else none
+  | .react s =>
+    match st.pcB s, st.a.rx s with
+    | .loop, some D =>
+      if critIn c st.a D then
+        match stepA c st.a (.react s true (liveChildren c st.a s)) with
+        | none => none
+        | some a' => some (exitLoop c st s .critical a')
+      else
+        let nb := st.nbDone s + (D.filter fun d => !c.forever d).length
+        if nb = nbFinite c s then
+          match stepA c st.a (.react s true (liveChildren c st.a s)) with
+          | none => none
+          | some a' => some (exitLoop c { st with nbDone := setAt st.nbDone s nb } s .success a')
+        else
+          match stepA c st.a (.react s false []) with
+          | none => none
+          | some a' => some { st with a := a', nbDone := setAt st.nbDone s nb }
+    | _, _ => none
+  | .timeoutFire s =>
+    if st.pcB s = .loop ∧ st.a.rx s = none ∧ doneSet c st.a s = [] ∧ expired (st.deadline s) st.a.now = true then
+      match stepA c st.a (.leave s (liveChildren c st.a s)) with
+      | none => none
+      | some a' => some (exitLoop c st s .timeout a')
+    else none
+  | .tidyReturn s pick =>
+    match st.pcB s with
+    | .tidy x =>
+      if liveChildren c st.a s = [] then
+        if st.didSd s then
+          -- `co_shutdown()` returns None at once
+          finishRun c { st with sdValue := setAt st.sdValue s none } s x pick
+        else
+          some { (broadcast c st s .inline) with pcB := setAt st.pcB s (.shut x) }
+      else none
+    | _ => none
+  | .hStep j =>
+    if 0 < j ∧ j < c.n ∧ c.isSched j = true ∧ st.hph j = .hactive ∧ relayActive st j = false then
+      if st.didSd j then
+        -- `if self._did_shutdown: return` (None)
+        some { st with hph := setAt st.hph j .hdone, sdValue := setAt st.sdValue j none }
+      else if (c.children j).isEmpty then
+        some { st with hph := setAt st.hph j .hdone, didSd := setAt st.didSd j true, sdValue := setAt st.sdValue j (some true) }
+      else some (broadcast c st j .relay)
+    else none
+  | .hEnd j =>
+    if 0 < j ∧ j < c.n ∧ c.isSched j = false ∧ st.hph j = .hactive ∧ st.hcreq j = false then
+      some { st with hph := setAt st.hph j .hdone }
+    else none
+  | .hCancelAck j =>
+    if 0 < j ∧ j < c.n ∧ c.isSched j = false ∧ st.hph j = .hactive ∧ st.hcreq j = true then
+      some { st with hph := setAt st.hph j .hcancelled, hcreq := setAt st.hcreq j false }
+    else none
+  | .hCancelArrive s =>
+    if 0 < s ∧ s < c.n ∧ c.isSched s = true ∧ st.hph s = .hactive ∧ st.hcreq s = true ∧ st.hcarrived s = false then
+      let st1 := { st with hcarrived := setAt st.hcarrived s true }
+      match st.bc s with
+      | .bwait .relay =>
+        some { st1 with bc := setAt st.bc s (.btidy .relay),
+                        hcreq := fun k => st1.hcreq k || decide (k ∈ activeHandlers c st s) }
+      | .btidy .relay => some st1
+      | _ => none
+    else none
+  | .sdWaitReturn s pick =>
+    if activeHandlers c st s = [] then
+      match st.bc s with
+      | .bwait .inline =>
+        match st.pcB s with
+        | .shut x => finishRun c { st with bc := setAt st.bc s .bover, sdValue := setAt st.sdValue s (some true) } s x pick
+        | _ => none
+      | .bwait .relay =>
+        some { st with bc := setAt st.bc s .bover, sdValue := setAt st.sdValue s (some true), hph := setAt st.hph s .hdone }
+      | _ => none
+    else none
+  | .sdTimeoutFire s =>
+    if (st.bc s).isWait = true ∧ activeHandlers c st s ≠ [] ∧ expired (st.hdeadline s) st.a.now = true then
+      let w := (st.bc s).who
+      some { st with bc := setAt st.bc s (.btidy w),
+                     hcreq := fun k => st.hcreq k || decide (k ∈ activeHandlers c st s),
+                     pcB := match w, st.pcB s with
+                            | .inline, .shut x => setAt st.pcB s (.shutTidy x)
+                            | _, _ => st.pcB }
+    else none
+  | .sdTidyReturn s pick =>
+    if activeHandlers c st s = [] then
+      match st.bc s with
+      | .btidy .inline =>
+        match st.pcB s with
+        | .shutTidy x => finishRun c { st with bc := setAt st.bc s .bover, sdValue := setAt st.sdValue s (some false) } s x pick
+        | _ => none
+      | .btidy .relay =>
+        some { st with bc := setAt st.bc s .bover, sdValue := setAt st.sdValue s (some false),
+                       hph := setAt st.hph s (if st.hcarrived s then .hcancelled else .hdone),
+                       hcreq := setAt st.hcreq s false }
+      | _ => none
+    else none
+  | .tick d =>
+    if quietB c st = true ∧
+       (∀ s ∈ List.range c.n, st.pcB s = .loop → within (st.deadline s) st.a.now d = true) ∧
+       (∀ s ∈ List.range c.n, (st.bc s).isWait = true → within (st.hdeadline s) st.a.now d = true) then
+      match stepA c st.a (.tick d) with
+      | none => none
+      | some a' => some { st with a := a' }
+    else none
+
+def acceptB (c : Cfg) : StB → List EvB → Option StB
+  | st, [] => some st
+  | st, e :: es => match stepB c st e with
+    | some st' => acceptB c st' es
+    | none => none
+
 end AJ.Full
